@@ -41,10 +41,21 @@ MANIFEST = dict(
     design="6 C16",
     engines=[dict(name="E-lints", path="harness/src/eng_lints.rs + coq/extract/eng_lints.ml",
                   kind_free_text="two-phase differential: real diagnostic report (requested twice) through ProjectManager on a temp "
-                                 "workspace + tree dump vs extracted Coq lint models on that tree")],
+                                 "workspace + tree dump vs extracted Coq lint models on that tree"),
+             dict(name="E-report", path="harness/src/eng_report.rs + coq/extract/eng_report.ml",
+                  kind_free_text="two-phase differential on the ASSEMBLED response: generate_document_diagnostic_report twice on one "
+                                 "manager, the document's parser diagnostics, the five real checkers driven one by one vs the extracted "
+                                 "Report.request on the dumped tree + parser diagnostics; items compared in order (range, severity, source, "
+                                 "tags, full message text); oracle on the implementation's output alone")],
 )
 
 ASSUMPTIONS = [
+    "assembled response (Model/Report.v, C16_response_* / C15_response_*): the items are compared IN ORDER except that every maximal "
+    "run of consecutive `Unused var` warnings is compared as a multiset (UnusedVarAnalyzer::check_unused_vars iterates a HashMap: the "
+    "order of ONE method's warnings is unspecified; the model lists them in declaration order); parser diagnostics, `Var name already "
+    "declared` errors, the return-type list and the shared collector of the three annotated-tree checkers (per node of the pre-order "
+    "walk: unpurged, naming, inherited) are order-exact; lsp_types::Diagnostic fields code / code_description / related_information / "
+    "data are None in every producer and not compared; the parser diagnostics are an input of the model (dumped from the document)",
     "identifiers are ASCII ([A-Za-z0-9_] by construction of the lexer): char::is_uppercase is modelled as A-Z and "
     "str::to_uppercase as ASCII upper-casing; where a string literal's content is compared with an ASCII word (PASS, the "
     "method name after `inherited x.`) the ten non-ASCII scalar values with an ASCII full upper-casing (sharp s, dotless i, "
